@@ -14,6 +14,9 @@ mod opt;
 mod reader;
 mod repl;
 mod rich;
+mod serde;
+mod tables;
+mod text;
 mod step;
 mod syms;
 mod unused;
@@ -31,6 +34,9 @@ fn main() {
         "base" => base::run(&rest),
         "compile" => compile::run(&rest),
         "conv" => conv::run(&rest),
+        "text" => text::run(&rest),
+        "serde" => serde::run(&rest),
+        "tables" => tables::run(&rest),
         "opt" => opt::run(&rest),
         "atomic" => atomic::run(&rest),
         "atomic-child" => atomic::child(&rest),
